@@ -213,6 +213,8 @@ def random_change(rng, stage):
     """A parity-consistent place set for the stage (mostly), or a cross on even stages."""
     if stage % 2 == 0 and rng.random() < 0.4:
         return []
+    if stage % 2 == 1 and rng.random() < 0.08:
+        return []          # a cross on an odd stage: the last bell makes the implicit place
     for _ in range(20):
         pl = sorted(rng.sample(range(1, stage + 1), rng.randint(1, min(stage, 4))))
         if textbook_change(stage, pl) is not None:
@@ -588,6 +590,52 @@ class GenHistorySuite:
                 return f"row {i} = {r} is not a complete row on {want}"
         if out["exn"] is not None and case["spec"]["kind"] != "complib":
             return f"generator raised {out['exn']}"
+        return None
+
+    def oracle_C04(self, case, out):
+        """Rule-driven (Dixonoid) generators: a pending call acts at the next lead of a bell for which it is defined, for
+        the whole pull it is defined for (handstroke and backstroke change), and only then is used up."""
+        spec = case["spec"]
+        if spec["kind"] != "dixon" or "rows" not in out:
+            return None
+        stage = spec["stage"]
+
+        def conv(d, dflt):
+            d = dflt if d is None else d
+            return {int(k): [[] if x in ("x", "-") else [BELL_NAMES.index(ch) + 1 for ch in x] for x in v] for k, v in d.items()}
+        plain = conv(spec["plain"], {0: ["x", "1"], 1: ["x", "2"], 2: ["x", "4"], 4: ["x", "4"]})
+        rules = {"bob": conv(spec["bob"], {1: ["x", "4"]}), "single": conv(spec["single"], {1: ["x", "1234"]})}
+        row = list(out["start_row"])
+        pending = None
+        got = iter(out["rows"])
+        for k, o in enumerate(case["ops"]):
+            if o == "reset":
+                row, pending = list(out["start_row"]), None
+            elif o in ("bob", "single"):
+                if pending is not None and pending != o:
+                    return None                 # both pending: outside the property's quantifier
+                pending = o
+            else:
+                nxt = next(got, None)
+                if nxt is None:
+                    break
+                idx = 0 if o == "H" else 1
+                lead = row[0]
+                if pending is not None and rules[pending].get(lead):
+                    pl = rules[pending][lead][idx]
+                    if idx == 1:
+                        pending = None
+                elif plain.get(lead):
+                    pl = plain[lead][idx]
+                else:
+                    pl = plain[0][idx]
+                src = textbook_change(stage, pl)
+                if src is None:
+                    return None
+                row = apply_change(src, row)
+                if nxt[0] != row:
+                    return (f"operation {k} ({o}): the rules give {row} but {nxt[0]} was generated "
+                            f"(call pending before this change: {pending or 'none'})")
         return None
 
     def oracle_C03(self, case, out):
